@@ -12,7 +12,7 @@ def boolean_only(e):
     k = e["k"]
     if k in ("union", "cut", "and"):
         return boolean_only(e["l"]) and boolean_only(e["r"])
-    return k in ("par", "tri", "circle", "interval", "sphere")
+    return k in ("par", "tri", "circle", "interval", "sphere", "poly", "mesh")
 
 
 def run(ctx):
